@@ -82,9 +82,9 @@ Definition far_post (m : segs) (r : Z * seg * Z * Z) : Prop :=
   let '(dsid, dst, base, val) := r in
   is_seg m dsid dst /\ 0 <= base <= maxSegmentSize /\ 0 <= val < 18446744073709551616.
 
-Lemma resolveFarPointer_safe m sid s paddr :
+Lemma resolveFarPointer_safe strict m sid s paddr :
   msg_ok m -> is_seg m sid s -> 0 <= paddr -> paddr + 8 <= zlen s ->
-  res_sat (resolveFarPointer m sid s paddr) (far_post m).
+  res_sat (resolveFarPointer strict m sid s paddr) (far_post m).
 Proof.
   intros Hm Hs Hp He. pose proof (is_seg_ok m sid s Hm Hs) as Hok.
   unfold resolveFarPointer.
@@ -105,6 +105,10 @@ Proof.
     rewrite Et. cbn [bind].
     match goal with |- res_sat (if ?b then _ else _) _ => destruct b eqn:Etag end; [exact I|].
     eapply res_sat_bind; [apply (pick_seg m sid s _ Hs)|]. intros dst Hdst.
+    cbv zeta. destruct (strict && (landingPadNearPointer far tag =? 0)).
+    { (* repaired code: the equivalent non-zero encoding of "empty struct at word 0" *)
+      change (rawStructPointer (-1) (mkOS 0 0)) with (Some 4294967292).
+      unfold res_sat, far_post. split; [assumption|]. unfold wordSize, maxSegmentSize. lia. }
     cbn. split; [assumption|]. split; [unfold maxSegmentSize; lia|].
     apply landingPad_range; [apply pointerType_far; lia|assumption].
   - destruct (pointerType val =? farPointer) eqn:Efar.
@@ -195,8 +199,8 @@ Lemma readPtr_safe strict m rl sid s paddr depth :
   res_sat (fst (readPtr strict m rl sid s paddr depth)) (fun p => strict = true -> wf_ptr m p).
 Proof.
   intros Hm Hs Hp He. unfold readPtr.
-  pose proof (resolveFarPointer_safe m sid s paddr Hm Hs Hp He) as Hr.
-  destruct (resolveFarPointer m sid s paddr) as [[[[dsid dst] base] val]| |]; cbn [res_sat far_post] in Hr;
+  pose proof (resolveFarPointer_safe strict m sid s paddr Hm Hs Hp He) as Hr.
+  destruct (resolveFarPointer strict m sid s paddr) as [[[[dsid dst] base] val]| |]; cbn [res_sat far_post] in Hr;
     [|exact I|exact Hr].
   destruct Hr as (Hd & Rb & Rv).
   destruct (val =? 0) eqn:E0; [cbn; intros _; apply wf_null|].
